@@ -1,6 +1,9 @@
+// Package vsync: sync primitives whose every operation is a scheduling point with happens-before edges.
 package vsync
 
-import vrt "verif/rt"
+import (
+	vrt "verif/rt"
+)
 
 type Mutex struct {
 	o      vrt.Obj
@@ -8,11 +11,30 @@ type Mutex struct {
 }
 
 func (m *Mutex) Lock() {
+	if vrt.InTeardown() {
+		m.locked = true
+		return
+	}
 	vrt.Point("Mutex.Lock", func() bool { return !m.locked })
 	m.locked = true
 	m.o.Touch(1)
 	m.o.Acquire()
 }
+
+func (m *Mutex) TryLock() bool {
+	if vrt.InTeardown() {
+		return false
+	}
+	vrt.Point("Mutex.TryLock", nil)
+	m.o.Touch(3)
+	if m.locked {
+		return false
+	}
+	m.locked = true
+	m.o.Acquire()
+	return true
+}
+
 func (m *Mutex) Unlock() {
 	if vrt.InTeardown() {
 		m.locked = false
@@ -32,54 +54,82 @@ type RWMutex struct {
 	ro vrt.Obj // readers' release clock
 	w  bool
 	r  int
+	ww int // writers waiting: a pending Lock blocks new readers, as in the real RWMutex
 }
 
 func (m *RWMutex) Lock() {
-	vrt.Point("RW.Lock", func() bool { return !m.w && m.r == 0 })
+	if vrt.InTeardown() {
+		m.w = true
+		return
+	}
+	vrt.Point("RWMutex.Lock.enter", nil)
+	m.o.Touch(5)
+	if m.w || m.r > 0 {
+		m.ww++
+		vrt.Point("RWMutex.Lock", func() bool { return !m.w && m.r == 0 })
+		m.ww--
+	}
 	m.w = true
 	m.o.Touch(1)
 	m.o.Acquire()
 	m.ro.Acquire()
 }
+
 func (m *RWMutex) Unlock() {
 	if vrt.InTeardown() {
 		m.w = false
 		return
 	}
-	vrt.Point("RW.Unlock", nil)
+	vrt.Point("RWMutex.Unlock", nil)
+	if !m.w {
+		panic("sync: Unlock of unlocked RWMutex")
+	}
 	m.w = false
 	m.o.Touch(2)
 	m.o.Release()
 }
+
 func (m *RWMutex) RLock() {
-	vrt.Point("RW.RLock", func() bool { return !m.w })
+	if vrt.InTeardown() {
+		m.r++
+		return
+	}
+	vrt.Point("RWMutex.RLock", func() bool { return !m.w && m.ww == 0 })
 	m.r++
 	m.o.Touch(3)
 	m.o.Acquire()
 }
+
 func (m *RWMutex) RUnlock() {
 	if vrt.InTeardown() {
 		m.r--
 		return
 	}
-	vrt.Point("RW.RUnlock", nil)
+	vrt.Point("RWMutex.RUnlock", nil)
+	if m.r <= 0 {
+		panic("sync: RUnlock of unlocked RWMutex")
+	}
 	m.r--
 	m.o.Touch(4)
 	m.ro.Release()
 }
 
 type WaitGroup struct {
-	o    vrt.Obj
-	n    int
-	sema int // pseudo location for the race model
+	o       vrt.Obj
+	n       int
+	waiters int
+	sema    int // pseudo location for the race model of the real detector
 }
+
+var siteWGAdd = vrt.NewSite("sync.(*WaitGroup).Add", "sync.WaitGroup")
+var siteWGWait = vrt.NewSite("sync.(*WaitGroup).Wait", "sync.WaitGroup")
 
 func (w *WaitGroup) Add(d int) {
 	if vrt.InTeardown() {
 		w.n += d
 		return
 	}
-	vrt.Point("WG.Add", nil)
+	vrt.Point("WaitGroup.Add", nil)
 	w.o.Touch(uint64(10 + d))
 	if d < 0 {
 		w.o.Release()
@@ -89,20 +139,42 @@ func (w *WaitGroup) Add(d int) {
 		panic("sync: negative WaitGroup counter")
 	}
 	if d > 0 && w.n == d {
-		vrt.Rd(&w.sema) // first increment: modelled as a read (as the real race detector does)
+		vrt.Rd(&w.sema, siteWGAdd) // first increment: a read (as the real race detector models it)
 	}
 }
+
 func (w *WaitGroup) Done() { w.Add(-1) }
+
 func (w *WaitGroup) Wait() {
 	if vrt.InTeardown() {
 		return
 	}
-	vrt.Point("WG.Wait.enter", nil)
+	vrt.Point("WaitGroup.Wait.enter", nil)
 	w.o.Touch(20)
 	if w.n != 0 {
-		vrt.W(&w.sema) // a Wait that blocks: modelled as a write
-		vrt.Point("WG.Wait", func() bool { return w.n == 0 })
+		if w.waiters == 0 {
+			// only the first waiter writes (as in the real WaitGroup: concurrent Waits must not race with each other)
+			w.sema++
+			vrt.W(&w.sema, siteWGWait)
+		}
+		w.waiters++
+		vrt.Point("WaitGroup.Wait", func() bool { return w.n == 0 })
+		w.waiters--
 		w.o.Touch(21)
 	}
 	w.o.Acquire()
+}
+
+type Once struct {
+	m    Mutex
+	done bool
+}
+
+func (o *Once) Do(f func()) {
+	o.m.Lock()
+	defer o.m.Unlock()
+	if !o.done {
+		defer func() { o.done = true }()
+		f()
+	}
 }
